@@ -2368,6 +2368,12 @@ class Interp:
             n = n['recv']
         if n['k'] == 'MethodCall' and n['method'] == 'take' and not n['args']:
             return True    # Option::take(); Iterator::take(n) has an argument
+        if n['k'] == 'MethodCall' and self.frame.get('callee') in self.c.fns:
+            # a method of a crate type (`binding.name()`): its declared return type says whether the value is an Option
+            rty_ = self.c.static_type(n['recv'], self.frame['callee'])
+            mq_ = (self.c.method_of(rty_, n['method']) if rty_ else None) or self.c.method_at(self.c.fns[self.frame['callee']]['file'], n.get('line'), n['method'])
+            if mq_:
+                return self.c.fns[mq_].get('ret', '').replace(' ', '').replace('->', '').startswith('Option<')
         if n['k'] == 'MethodCall' and n['method'] in ('iter', 'into_iter', 'keys', 'values', 'iter_mut', 'enumerate', 'filter', 'map', 'filter_map', 'flat_map',
                                                       'rev', 'skip', 'take', 'chars', 'lines', 'chain', 'zip', 'drain', 'windows', 'chunks'):
             return False
